@@ -1,0 +1,38 @@
+//! Verification hooks (feature `verif-hooks`, off by default).
+//!
+//! Add-only instrumentation used by the external verification harness: process-global,
+//! optional callbacks that are no-ops unless a callback is installed.
+
+use std::sync::{Arc, RwLock};
+
+type SiteFn = Arc<dyn Fn(&'static str) + Send + Sync>;
+type SleepFn = Arc<dyn Fn(u64) + Send + Sync>;
+
+static YIELD_CB: RwLock<Option<SiteFn>> = RwLock::new(None);
+static SLEEP_CB: RwLock<Option<SleepFn>> = RwLock::new(None);
+
+/// Install (or clear) the callback invoked at every instrumented lock site.
+pub fn set_yield_callback(cb: Option<SiteFn>) {
+    *YIELD_CB.write().unwrap() = cb;
+}
+
+/// Called before each instrumented lock acquisition. No callback installed => no-op.
+pub fn yield_point(site: &'static str) {
+    let cb = YIELD_CB.read().unwrap().clone();
+    if let Some(cb) = cb {
+        cb(site);
+    }
+}
+
+/// Install (or clear) the callback that observes back-off delays (milliseconds).
+pub fn set_sleep_callback(cb: Option<SleepFn>) {
+    *SLEEP_CB.write().unwrap() = cb;
+}
+
+/// Called with the computed delay right before a retry sleeps.
+pub fn on_sleep(ms: u64) {
+    let cb = SLEEP_CB.read().unwrap().clone();
+    if let Some(cb) = cb {
+        cb(ms);
+    }
+}
